@@ -136,6 +136,14 @@ impl Monitor for M {
         for (si, (sclass, suffix)) in suffixes.iter().enumerate() {
             let mut buf = bytes.clone();
             buf.extend_from_slice(suffix);
+            // history: every other case parses the same bytes flagged with the other byte order first
+            // (identical raw fields, to be read the other way round); the parse that follows depends on
+            // its own input only
+            if ctx.index % 2 == 1 && si == 0 {
+                let other = crate::gen_msg::other_byte_order(&buf, wsh);
+                let _ = guarded(|| dlt_message(&other, None, wsh).map(|(r, _)| r.len()));
+                ctx.obs("history.other_byte_order_parsed_first");
+            }
             ctx.eval();
             ctx.mark(2 + si as u32);
             let res = guarded(|| dlt_message(&buf, None, wsh).map(|(rest, pm)| (super::ptr_off(&buf, rest), rest.len(), pm)));
